@@ -387,7 +387,7 @@ def gen_plan(rng, tier):
                     else:
                         sub.append(["nice_iv", rng.choice(UNITS), rng.choice([0, 1, 1, 2, 3, 5])])
                 elif k < 0.92:
-                    sub.append(["ticks", rng.choice([None, None, 2, 5, 10, 20])])
+                    sub.append(["ticks", rng.choice([None, None, 2, 5, 10, 20, 1, 3, 7, 50])])
                 else:
                     sub.append(["copy"])
             ops.append(["scale", [a, b], rr, sub])
